@@ -27,6 +27,8 @@ def check(chk):
     _chain(chk)
     _stacker(chk)
     _concatenator(chk)
+    _concat_align(chk)
+    positional_relabel(chk)
     _multiindex(chk)
     _renamer(chk)
     chk.floor("MIRROR.chain", 10)
@@ -246,6 +248,50 @@ def _concatenator(chk):
             okrs = okrs or any(p.atom.name == "self.coords_in" for p in spf.paths(v, spine_only=True))
     chk.check(okrs, "MIRROR.state.concat.restore", sp, sp.node,
               construct="split re-attaches the recorded feature coordinates", why="the original feature coordinates are not re-attached when splitting")
+
+
+def positional_relabel(chk, rule="MIRROR.state.stack.labels"):
+    """Stacker's inverse maps change labels only by rename / unstack (label based).  Overwriting coordinates from the
+    values remembered at fit (assign_coords / .coords[...] = ...) re-labels by POSITION, but unstack returns sorted labels."""
+    pm = chk.pm
+    from .c14 import self_closure
+    st = pm.cls("xeofs.preprocessing.stacker.Stacker")
+    seen = set()
+    for mname in INVERSES:
+        for fn in self_closure(pm, st, st.methods[mname]):
+            if fn.qualname in seen:
+                continue
+            seen.add(fn.qualname)
+            ff = FuncFacts.of(fn)
+            bad = []
+            for c in calls_in(fn):
+                if isinstance(c.func, ast.Attribute) and c.func.attr in ("assign_coords", "reset_coords", "set_index", "reindex_like"):
+                    args = list(c.args) + [k.value for k in c.keywords]
+                    if any(any(p.atom.kind == "selfattr" and p.atom.name.startswith("self.coords") for p in ff.paths(a, spine_only=False)) for a in args):
+                        bad.append(c)
+            for n in walk_no_nested(fn.node):
+                if isinstance(n, ast.Assign):
+                    for t in n.targets:
+                        if isinstance(t, ast.Subscript) and isinstance(t.value, ast.Attribute) and t.value.attr == "coords":
+                            bad.append(n)
+            chk.check(not bad, rule, fn, bad[0] if bad else fn.node, construct=f"{fn.qualname}: labels changed only by rename/unstack",
+                      why="coordinates remembered at fit are written back by position; unstack returns labels sorted, so for unsorted or permuted "
+                          "feature coordinates every value lands on the wrong label")
+
+
+def _concat_align(chk):
+    pm = chk.pm
+    cc = pm.cls("xeofs.preprocessing.concatenator.Concatenator")
+    tr = cc.methods["transform"]
+    cs = [c for c in calls_in(tr) if (dotted(c.func) or "").endswith("concat")]
+    chk.require(len(cs) == 1, "Concatenator.transform: xr.concat vanished")
+    kw = call_kwargs(cs[0])
+    bad = {k: const_str(v) for k, v in kw.items() if k in ("join", "compat", "coords") and const_str(v) == "override"}
+    chk.check(not bad, "MIRROR.state.concat.align", tr, cs[0],
+              why=f"list items are concatenated with {bad}: the sample index of the first item is pasted onto the others by position, so items whose "
+                  "samples are ordered differently get their values attached to the wrong sample labels")
+    d = kw.get("dim")
+    chk.check(d is not None and norm(d) == "self.feature_name", "MIRROR.state.concat.dim", tr, cs[0], why="items must be concatenated along the feature dimension")
 
 
 def _multiindex(chk):
